@@ -147,3 +147,11 @@ RULES = [
     ("C03.e", "in-flight counter pairing", rule_e),
     ("C03.f", "sequenced scheduled events; shared connection lists", rule_f),
 ]
+
+
+def rule_inventory(ctx):
+    from . import inventory
+    inventory.check(ctx, ['mailbox-push', 'mailbox-pop', 'mailbox-recv', 'file:mailbox-queue', 'seq-future-build'])
+
+
+RULES.append(("C03.i", "state-mutation inventory: no new site that changes the content of the state this property rests on", rule_inventory))
